@@ -3,8 +3,8 @@
 # In a scratch worktree: (1) patch applies, (2) unedited suite passes with it, (3) demo fails with it, (4) demo passes without it.
 set -u
 PATCH=$(readlink -f "$1"); DEMO=$(readlink -f "$2"); CRATE=$3
-WT=/tmp/wt/confirm
-export CARGO_TARGET_DIR=/tmp/wt/confirm-target CARGO_NET_OFFLINE=true
+WT=/tmp/wt/confirm-${CONFIRM_TAG:-0}
+export CARGO_TARGET_DIR=/tmp/wt/confirm-${CONFIRM_TAG:-0}-target CARGO_NET_OFFLINE=true
 git -C /repo worktree remove --force $WT >/dev/null 2>&1
 git -C /repo worktree add -q $WT HEAD || exit 2
 cd $WT
@@ -16,4 +16,4 @@ with=$(cargo test -p $pkg --test seeded_demo --offline 2>&1 | grep -E "^test res
 git checkout -q -- . 
 without=$(cargo test -p $pkg --test seeded_demo --offline 2>&1 | grep -E "^test result" | awk '{p+=$4; f+=$6} END {print p" "f}')
 echo "RESULT suite_with_patch=[$suite] demo_with_patch=[$with] demo_without_patch=[$without]"
-cd /; git -C /repo worktree remove --force $WT
+cd /; git -C /repo worktree remove --force $WT; rm -rf $CARGO_TARGET_DIR
